@@ -19,11 +19,15 @@ _ALL_APPLY = _UPTO_EVAL + ["FuncsPos.lean", "FuncsRoad.lean", "FuncsMoveGen.lean
 # scoreThreats, computeInfluence / computeControl, scoreControl, the init that builds DefaultWeights) come last.
 _ALL_THREAT = _ALL_APPLY + ["FuncsThreat.lean"]
 _ALL_HEUR = _ALL_THREAT + ["FuncsHeur.lean"]
+# Fifth round (work package "gen5"): FuncsSearch (Stats.Merge, nullMoveOK, ttGet, ttPut, recordCut of ai/minimax.go) imports only
+# the files up to FuncsAI (gen/search.go groupImportsUpTo), so the search properties do not depend on the evaluator's files.
 _GEN = {
     "C01": (_ALL_APPLY, ["FNTAK", "FNPOS", "FNAPPLY"]),
     "C02": (_UPTO_EVAL + ["FuncsPos.lean", "FuncsRoad.lean"], ["FNTAK", "FNOVER", "FNROAD"]),
     "C03": (_ALL_APPLY, ["FNMOVEGEN", "FNAPPLY"]),
-    "C05": (["FuncsTak.lean", "FuncsMove.lean", "FuncsAI.lean"], ["FNMOVE", "FNAI"]),
+    "C05": (["FuncsTak.lean", "FuncsMove.lean", "FuncsAI.lean", "FuncsSearch.lean"], ["FNMOVE", "FNAI", "FNSEARCH"]),
+    "C04": (["FuncsTak.lean", "FuncsMove.lean", "FuncsAI.lean", "FuncsSearch.lean"], ["FNSEARCH"]),
+    "C16": (["FuncsTak.lean", "FuncsMove.lean", "FuncsAI.lean", "FuncsSearch.lean"], ["FNSEARCH"]),
     "C14": (_UPTO_EVAL + ["FuncsPos.lean", "FuncsRoad.lean", "FuncsMoveGen.lean", "FuncsSymMove.lean"], ["FNMOVE", "FNSYM", "FNXFORM"]),
     "C06": (_UPTO_EVAL + ["FuncsPos.lean", "FuncsRoad.lean", "FuncsMoveGen.lean", "FuncsSymMove.lean", "FuncsProve.lean"], ["FNPROVE"]),
     "C15": (["FuncsTak.lean", "FuncsMove.lean", "FuncsSym.lean"], ["FNSYM"]),
